@@ -169,7 +169,9 @@ static void rl_storage(int outs, const StorageSet &v) { if (outs > 0) rl("values
 template<class T> static void rl_nodes(const T &data) { std::vector<const NodeData*> v; for (auto &d : data) v.push_back(&d); std::string r = " " + std::to_string(v.size());
     for (auto it = v.rbegin(); it != v.rend(); ++it) { r += " |" + fm_ints((*it)->point) + " :" + fm_dbls((*it)->value); } rl("c.nodes", r); }
 static void rl_cglobal(const DynamicConstructorDataGlobal &dv) { std::vector<const TensorData*> v; for (auto &t : dv.tensors) v.push_back(&t); std::string r = " " + std::to_string(v.size());
-    for (auto it = v.rbegin(); it != v.rend(); ++it) { r += " | " + hx((*it)->weight) + " :" + fm_ints((*it)->tensor); } rl("c.tensors", r); rl_nodes(dv.data); }
+    for (auto it = v.rbegin(); it != v.rend(); ++it) { r += " | " + hx((*it)->weight) + " :" + fm_ints((*it)->tensor); } rl("c.tensors", r); rl_nodes(dv.data);
+    int waiting = 0; for (auto &t : dv.tensors) if (t.loaded.empty()) waiting++;   // NOT serialised: tensors marked complete that wait for their parents
+    printf("w complete_tensors %d\n", waiting); }
 static void rl_csimple(const SimpleConstructData &dv) { rl("c.initial", fm_mset(dv.initial_points)); rl_nodes(dv.data); }
 static void rl_updated(const MultiIndexSet &t, const MultiIndexSet &a, const std::vector<int> &w) {
     if (t.empty()) { rl("updated", " none"); return; } rl("updated.tensors", fm_mset(t)); rl("updated.active", fm_mset(a)); rl("updated.w", fm_ints(w)); }
@@ -227,7 +229,7 @@ static void dump_api(TasmanianSparseGrid &g) {
     al("rule", " " + std::to_string(IO::getRuleInt(g.getRule()))); al("order", " " + std::to_string(g.getOrder()));
     al("alpha", " " + hx(g.getAlpha())); al("beta", " " + hx(g.getBeta()));
     al("loaded", " " + std::to_string(g.getNumLoaded())); al("needed", " " + std::to_string(g.getNumNeeded())); al("npoints", " " + std::to_string(g.getNumPoints()));
-    if (!g.empty()) { const int *p = g.getPointsIndexes(); al("pidx", fm_ints(std::vector<int>(p, p + (size_t) d * g.getNumPoints()))); }
+    if (!g.empty() && g.getNumPoints() > 0) { const int *p = g.getPointsIndexes(); al("pidx", fm_ints(std::vector<int>(p, p + (size_t) d * g.getNumPoints()))); } else if (!g.empty()) al("pidx", "");
     if (g.isLocalPolynomial() && g.getNumNeeded() > 0) { const int *p = g.getNeededIndexes(); al("nidx", fm_ints(std::vector<int>(p, p + (size_t) d * g.getNumNeeded()))); }
     { const double *v = g.getLoadedValues(); al("values", (v && outs > 0) ? fm_dbls(v, (size_t) outs * g.getNumLoaded()) : std::string("")); }
     { const double *c = (g.empty() || outs == 0 || g.getNumLoaded() == 0) ? nullptr : g.getHierarchicalCoefficients();
@@ -252,6 +254,7 @@ static void dvi(const std::vector<int> &v) { size_t n = v.size(); dmix(&n, sizeo
 static void digest(Slot &s, const std::vector<double> &x, bool verbose) {
     const TasmanianSparseGrid &g = s.g; int d = g.getNumDimensions(), outs = g.getNumOutputs(); size_t nx = d ? x.size() / d : 0;
     bool canev = (!g.empty() && outs > 0 && g.getNumLoaded() > 0);
+    bool haspts = (!g.empty() && g.getNumPoints() > 0);   // the weight getters crash on a grid under construction that has no point yet
     std::vector<std::pair<std::string, std::string>> c;
     c.push_back({"meta", hcat([&]() { int t = g.isGlobal() ? 1 : g.isSequence() ? 2 : g.isLocalPolynomial() ? 3 : g.isWavelet() ? 4 : g.isFourier() ? 5 : 0;
         std::vector<int> m = {t, d, outs, (int) g.getRule(), g.getOrder(), g.getNumLoaded(), g.getNumNeeded(), g.getNumPoints(), (int) g.isSetDomainTransfrom(),
@@ -260,10 +263,9 @@ static void digest(Slot &s, const std::vector<double> &x, bool verbose) {
     c.push_back({"points", hcat([&]() { if (!g.empty()) dv(g.getPoints()); })});   // the getters dereference a null base on an empty grid
     c.push_back({"loaded", hcat([&]() { if (!g.empty() && g.getNumLoaded() > 0) dv(g.getLoadedPoints()); })});   // getLoadedPoints() overruns its buffer when outputs == 0
     c.push_back({"needed", hcat([&]() { if (!g.empty()) dv(g.getNeededPoints()); })});
-    c.push_back({"pidx", hcat([&]() { if (!g.empty()) { const int *p = g.getPointsIndexes(); dvi(std::vector<int>(p, p + (size_t) d * g.getNumPoints())); } })});
+    c.push_back({"pidx", hcat([&]() { if (!g.empty() && g.getNumPoints() > 0) { const int *p = g.getPointsIndexes(); dvi(std::vector<int>(p, p + (size_t) d * g.getNumPoints())); } })});
     c.push_back({"values", hcat([&]() { const double *v = g.getLoadedValues(); if (v && outs > 0) dv(std::vector<double>(v, v + (size_t) outs * g.getNumLoaded())); })});
     c.push_back({"coef", hcat([&]() { if (canev) { const double *p = g.getHierarchicalCoefficients(); dv(std::vector<double>(p, p + (size_t) outs * g.getNumLoaded() * (g.isFourier() ? 2 : 1))); } })});
-    bool haspts = (!g.empty() && g.getNumPoints() > 0);   // the weight getters crash on a grid under construction that has no point yet
     c.push_back({"qw", hcat([&]() { if (haspts) dv(g.getQuadratureWeights()); })});
     c.push_back({"iw", hcat([&]() { if (haspts) for (size_t i = 0; i < nx; i++) dv(g.getInterpolationWeights(std::vector<double>(x.begin() + i * d, x.begin() + (i + 1) * d))); })});
     c.push_back({"eval", hcat([&]() { if (canev) for (size_t i = 0; i < nx; i++) { std::vector<double> y; g.evaluate(std::vector<double>(x.begin() + i * d, x.begin() + (i + 1) * d), y); dv(y); } })});
